@@ -344,6 +344,11 @@ def builtin_tables(ctx):
                     v = None
                     if b.get('k') == 'call' and path_of(b['func']) == ['Some'] and path_of(b['args'][0]):
                         v = path_of(b['args'][0])[-1]
+                    else:
+                        # `"x" => Builtin::X` (wrapped in Some(..) after the match) or any body naming exactly one variant
+                        vs = {tuple(n['path']) for n in find_all(b, lambda n: n.get('k') == 'path' and len(n['path']) >= 2 and n['path'][-2] == 'Builtin')}
+                        if len(vs) == 1:
+                            v = next(iter(vs))[-1]
                     names[p['lit']['value']] = v
         # Builtin -> call_* from MIR of builtins::call
         fn = F.fn('builtins::call')
